@@ -82,9 +82,14 @@ func dataBody(r *Rng, fs []fieldSpec, nrec int, pad int) []byte {
 // consumer and rendered only after the last one arrived, as an application that batches does:
 // a delivered record must be what ITS message's bytes define, whatever was read afterwards.
 // obs: one outcome per packet as in the in-process form; a packet without a delivery is "err lost".
-func c03Via(proto string, mode string, pkts [][]byte) string {
+func c03Via(proto string, mode string, pkts [][]byte, refs []string) string {
 	cp, d, stop := startCollector(proto, modeOf(mode))
-	defer stop()
+	stopped := false
+	defer func() {
+		if !stopped {
+			stop()
+		}
+	}()
 	conn, err := net.Dial(proto, cp.GetAddress().String())
 	if err != nil {
 		return "dial-error"
@@ -112,18 +117,42 @@ func c03Via(proto string, mode string, pkts [][]byte) string {
 	d.mu.Unlock()
 	out := []string{}
 	for i := range pkts {
-		if i < len(ms) {
+		switch {
+		case i < len(ms):
 			out = append(out, showDecoded(ms[i], nil))
-		} else {
+		case i < len(refs) && strings.HasPrefix(refs[i], "err"):
+			// not delivered, and rightly so: the bytes denote no message (the reference outcome of
+			// decoding them in-process names the reason; the transport only shows "nothing came")
+			out = append(out, refs[i])
+		default:
 			out = append(out, "err lost")
+		}
+	}
+	// "terminates promptly ... without crashing the process": once the peer has gone the reader
+	// of this connection is gone too, and the collecting process can be stopped
+	if proto == "tcp" {
+		conn.Close()
+		if !waitConns(cp, 0, 2*time.Second*slowFactor()) {
+			out[len(out)-1] = "hang connection-still-held-after-the-peer-left"
+		}
+		fin := make(chan struct{})
+		go func() { stop(); close(fin) }()
+		stopped = true
+		select {
+		case <-fin:
+		case <-time.After(5 * time.Second * slowFactor()):
+			out[len(out)-1] = "hang stop-does-not-return"
 		}
 	}
 	return strings.Join(out, " / ")
 }
 
-func c03ViaCase(c string) string {
-	t := strings.Fields(c) // <mode> via <proto> <packets>
-	return c03Via(t[2], t[0], parsePackets(t[3:]))
+// c03ViaCase: <mode> via <proto> <packets>; the per-packet reference outcomes come from the
+// in-process decoder (child process) on the same history.
+func c03ViaCase(pool *DecPool, c string) string {
+	t := strings.Fields(c)
+	ref := pool.Run("C03 " + t[0] + " " + strings.Join(t[3:], " "))
+	return c03Via(t[2], t[0], parsePackets(t[3:]), strings.Split(ref, " / "))
 }
 
 func runC03(env *Env) {
@@ -135,7 +164,7 @@ func runC03(env *Env) {
 			ct := caseTokens(l)
 			c := strings.Join(ct, " ")
 			if len(ct) > 2 && ct[1] == "via" {
-				env.Emit("C03 "+c, c03ViaCase(c))
+				env.Emit("C03 "+c, c03ViaCase(pool, c))
 				continue
 			}
 			env.Emit("C03 "+c, pool.Run("C03 "+c))
@@ -310,9 +339,10 @@ func runC03(env *Env) {
 	// --- E. sessions through the transports: a template, then several valid data messages of
 	// different sizes (octetArray / string / unknown fields among them) on one connection; the
 	// deliveries are looked at after the last one was read ---
-	for it := 0; it < 60*scale && !pool.Tripped(); it++ {
+	runts := 0
+	for it := 0; it < 90*scale && !pool.Tripped(); it++ {
 		mode := modes[it%3]
-		proto := []string{"tcp", "udp"}[(it/3)%2]
+		proto := []string{"tcp", "tcp", "udp"}[(it/3)%3]
 		obs := uint32(r.Intn(3))
 		tid := uint16(256 + r.Intn(4))
 		fs := randomTemplate(r, 5)
@@ -335,9 +365,42 @@ func runC03(env *Env) {
 			env.Count("session/not-acceptable-in-mode")
 			continue
 		}
+		class := "session/" + proto
+		if proto == "tcp" && r.Bool() {
+			// the session ends with bytes that denote no message: a message whose length field
+			// (0..15) is shorter than a message header - the peer was cut off, or is hostile -
+			// or a data message cut inside a record with consistent length fields. The reader
+			// must reject it, let go of the connection, and the process must still stop.
+			var bad []byte
+			if r.Bool() {
+				l := []int{0, 1, 3, 4, 15, 0, 8}[runts%7] // every boundary on every run
+				runts++
+				n := l
+				if n < 4 {
+					n = 4
+				}
+				bad = append([]byte{}, pkts[1][:n]...)
+				binary.BigEndian.PutUint16(bad[2:], uint16(l))
+				class = "session/tcp-ends-with-runt-message"
+			} else {
+				g := pkts[len(pkts)-1]
+				cut := 21 + r.Intn(len(g)-21)
+				bad = append([]byte{}, g[:cut]...)
+				binary.BigEndian.PutUint16(bad[2:], uint16(cut))
+				binary.BigEndian.PutUint16(bad[18:], uint16(cut-16))
+				class = "session/tcp-ends-with-cut-record"
+			}
+			withBad := append(append([]string{}, args...), hx(bad))
+			ref2 := strings.Split(pool.Run("C03 "+mode+" "+strings.Join(withBad, " ")), " / ")
+			if len(ref2) == len(withBad) && strings.HasPrefix(ref2[len(ref2)-1], "err") {
+				args = withBad
+			} else {
+				class = "session/tcp" // the cut fell on a record boundary: still a message
+			}
+		}
 		c := mode + " via " + proto + " " + strings.Join(args, " ")
-		env.Count("session/" + proto)
-		env.Emit("C03 "+c, c03ViaCase(c))
+		env.Count(class)
+		env.Emit("C03 "+c, c03ViaCase(pool, c))
 	}
 
 	// --- D. large bodies: many records, long variable-length fields (pat atoms) ---
